@@ -262,7 +262,10 @@ def wire_check(ctx, h, in_range, label, doc=None):
     """C03 clauses on the document the HUGR serialises to."""
     V = ctx.violate
     try:
-        doc = doc if doc is not None else json.loads(h.to_json())
+        doc = doc if doc is not None else wire.strict_loads(h.to_json())
+    except wire.NotJson as e:
+        V("schema", "document-is-not-json", {"label": label, "error": str(e)})
+        return
     except Exception as e:  # noqa: BLE001
         V("serialise", f"to_json-raised:{type(e).__name__}", {"label": label, "error": repr(e)[:300]})
         return
@@ -292,9 +295,55 @@ def wire_check(ctx, h, in_range, label, doc=None):
         V("port-addressing", f"unpredictable:{type(e).__name__}", {"label": label})
         return
     got = Counter(((e[0][0], e[0][1]), (e[1][0], e[1][1])) for e in doc["edges"])
+    if label == "builder":
+        # builder products: an edge leaving a static output (Const / FuncDefn / FuncDecl) arrives at the static
+        # input port of its target, which sits immediately after the target's value inputs
+        ctx.checked("static-port")
+        sems = [R.op_sem(o) for o in doc["nodes"]]
+        for (s_, so), (d_, do) in got:
+            if sems[s_]["sout"] is not None and so == 0 and sems[d_]["sin"] is not None:
+                want_off = len(sems[d_]["vin"] or [])
+                if do != want_off:
+                    V("port-addressing", f"static-port-offset:{doc['nodes'][d_]['op']}", {"label": label, "edge": [[s_, so], [d_, do]],
+                                                                                       "expected_offset": want_off})
     if pred != got:
         missing, extra = pred - got, got - pred
         has_order = any(l[1] == -1 for l in links)
         mo = [e for e in extra.elements()]
         V("port-addressing", "order-edge-offset" if has_order and len(missing) == len(extra) else "edges-differ",
           {"label": label, "expected_not_emitted": sorted(missing.elements())[:5], "emitted_not_expected": sorted(mo)[:5]})
+
+
+def continue_on_loaded(ctx, doc_str, label):
+    """The history continues on the loaded copy (C02/C03): load, mutate the loaded HUGR through the graph API
+    (incl. in-place metadata edits and new order links next to order edges that were read with explicit offsets),
+    round-trip and wire-check it again, and load the original document once more: it must load the same."""
+    from hugr.hugr import Hugr
+
+    from ..reader_main import obs_hugr
+
+    ch = ctx.ch
+    try:
+        h2 = Hugr.load_json(doc_str)
+        first = json.loads(json.dumps(obs_hugr(h2)))
+    except Exception:  # noqa: BLE001  (judged by roundtrip_check)
+        return
+    gs = GraphSim(ctx, in_range=True, allow_delete=ch.coin(1, 2, "p-delete"), allow_insert=False, use_meta=True,
+                  max_nodes=len(h2) + 6, adopt_hugr=h2, order_only_valid=True)
+    _mutate(ctx, gs, 1 + ch.draw(8, "nsteps-loaded"))
+    ctx.probe("history_continued_on_loaded_copy")
+    gs.compare(gs.graphs[0], "mutation-of-loaded-copy")
+    if ctx.violations:
+        return
+    roundtrip_check(ctx, h2, label + "+loaded+mutated", False)
+    wire_check(ctx, h2, True, label + "+loaded+mutated")
+    ctx.checked("load-deterministic")
+    try:
+        again = json.loads(json.dumps(obs_hugr(Hugr.load_json(doc_str))))
+    except Exception as e:  # noqa: BLE001
+        ctx.violate("load-deterministic", f"second-load-raised:{type(e).__name__}", {"label": label})
+        return
+    if again != first:
+        d = _first_diff(first, again) or {}
+        what = "metadata" if "metadata" in d.get("path", "") else "structure"
+        ctx.violate("load-deterministic", f"same-document-loads-differently:{what}", {"label": label, "diff": d})
